@@ -219,6 +219,7 @@ fn run<F: Flavour>(sc: &SccSc, stats: &mut Stats) -> Option<Violation> {
     if F::SYNC {
         solo.install();
     }
+    crate::keys::set_style(crate::keys::style_from(sc.instances.first().map(|x| x.0).unwrap_or(0)));
     let mut orders_seen = BTreeSet::new();
     let mut result = None;
     'inst: for (hs, order) in &sc.instances {
